@@ -97,10 +97,6 @@ Section Generic.
       + now apply IH.
   Qed.
 
-  Lemma lookup_none reg k : lookup reg k = None <-> forall c, ~ In (k, c) reg \/ lookup reg k = None.
-  Proof. split; intro H; [intros c; now right|]. destruct (lookup reg k) eqn:E; [|reflexivity].
-    destruct (H c) as [Hn | Hn]; [|discriminate]. exfalso. apply Hn. now apply lookup_in. Qed.
-
   (* first match over a list whose ranks strictly increase = the match of minimal rank *)
   Lemma first_match_some reg (l : list (nat * ident)) c :
     (forall i j a b, i < j -> nth_error l i = Some a -> nth_error l j = Some b -> fst a < fst b) ->
